@@ -19,9 +19,6 @@ CM2INT = 2.0 * numpy.pi * _C.c * 100.0 * 1.0e-15
 #: relative uncertainty admitted on k_B (the library hard-codes a CODATA-2010
 #: value of k_B in 1/cm/K which differs from scipy's by 5.8e-8)
 KB_REL = 1.0e-6
-#: populations whose reference logarithm is below this are only required to be tiny
-LOG_FLOOR = -690.0
-TINY = numpy.exp(-680.0)
 
 
 def log_populations(energies, T):
@@ -60,30 +57,43 @@ def log_slack(logp, x):
     return KB_REL * (xf + mean)
 
 
-def compare_populations(p_obs, energies, T, rtol=1e-9):
-    """Compare observed populations with Boltzmann populations of `energies`.
+def conditioning(enorm, T):
+    """Bound on |delta log p| from rounding noise of the energies: a similarity
+    transformation of an n x n matrix (n <= 16 here) perturbs entries by <= 2n*eps*enorm
+    each way, populations have condition number 1/kT with respect to the energies."""
+    if enorm is None or T == 0:
+        return 0.0
+    return 2.0 * 64.0 * numpy.finfo(float).eps * float(enorm) / (KB_INT * float(T))
 
-    Returns (ok, worst) where worst is the largest excess measure:
-      for reference populations above the floor  |log p_obs - log p_ref| / allowed,
-      below the floor (or exactly zero)          p_obs / TINY.
-    allowed = rtol + k_B slack.  ok <=> worst <= 1."""
-    p_obs = numpy.real(numpy.asarray(p_obs))
+
+def compare_populations(p_obs, energies, T, atol=1e-10, rtol=1e-9, enorm=None):
+    """Compare observed populations with the Boltzmann populations of `energies`.
+
+    allowed_a = atol + p_ref,a * expm1(rtol + k_B slack_a + conditioning)
+    conditioning = 2*(64*eps*enorm)/kT: energies that went through a similarity
+    transformation carry rounding noise ~eps*enorm (enorm = max |H_ij|), and populations
+    have condition number 1/kT with respect to them (computed bound, matters only below 1 K)
+    (atol: class R on numbers of scale 1 -- populations that went through a basis
+    transformation carry absolute rounding noise ~1e-16, so populations far below atol
+    are only required to be <= atol; the second term is the admitted uncertainty of k_B).
+    Returns (ok, excess, dlog): excess = max_a |p_obs-p_ref|/allowed_a (ok <=> excess <= 1),
+    dlog = largest |log p_obs - log p_ref| over levels with p_ref > 1e-6 (information)."""
+    p_obs = numpy.real(numpy.asarray(p_obs, dtype=complex))
     logp, x = log_populations(energies, T)
+    if not numpy.all(numpy.isfinite(p_obs)):
+        return False, float("inf"), float("inf")
+    p_ref = numpy.exp(logp)
     slack = log_slack(logp, x)
-    worst = 0.0
-    worst_abs = 0.0
-    for a in range(len(logp)):
-        if not numpy.isfinite(p_obs[a]):
-            return False, float("inf"), float("inf")
-        if logp[a] > LOG_FLOOR:
-            if p_obs[a] <= 0.0:
-                return False, float("inf"), float(abs(p_obs[a] - numpy.exp(logp[a])))
-            dev = abs(numpy.log(p_obs[a]) - logp[a])
-            worst = max(worst, dev / (rtol + slack[a]))
-            worst_abs = max(worst_abs, dev)
-        else:
-            worst = max(worst, abs(p_obs[a]) / TINY)
-    return worst <= 1.0, float(worst), float(worst_abs)
+    cond = conditioning(enorm, T)
+    allowed = atol + p_ref * numpy.expm1(rtol + slack + cond)
+    excess = float(numpy.max(numpy.abs(p_obs - p_ref) / allowed))
+    big = p_ref > 1e-6
+    dlog = 0.0
+    if numpy.any(big) and numpy.all(p_obs[big] > 0):
+        dlog = float(numpy.max(numpy.abs(numpy.log(p_obs[big]) - logp[big])))
+    elif numpy.any(big):
+        dlog = float("inf")
+    return excess <= 1.0, excess, dlog
 
 
 def state_in_basis(B, pops):
